@@ -266,6 +266,17 @@ def w_features(ctx, rng, i):
         r = f2(f1(im))
     else:
         r = getattr(mf, fname)(im, **opts)
+    # the result is the caller's: a later call of the same feature on other data of the same size does not touch it
+    if fname not in ("compose",) and rng.random() < 0.5:
+        rd_ = digest(r)
+        other_ = make_image(rng, cls, shp, C, dtype, mk)
+        if fname == "gaussian_filter":
+            mf.gaussian_filter(other_, opts["sigma"]); mf.gaussian_filter(other_.pixels, opts["sigma"])
+        else:
+            getattr(mf, fname)(other_, **opts); getattr(mf, fname)(other_.pixels, **opts)
+        ctx.tap("earlier_result_untouched_by_a_later_call", "calls"); ctx.tap("earlier_result_untouched_by_a_later_call", "checked")
+        if digest(r) != rd_:
+            ctx.fail("feature_result_changed_by_a_later_call_on_other_data", cls=fname, mech=cls)
     # the array route, on the same data, leaves the array alone as well (judged by the tap)
     if fname not in ("compose",):
         (getattr(mf, fname)(im.pixels, *( [opts["sigma"]] if fname == "gaussian_filter" else []), **({} if fname == "gaussian_filter" else opts)))
